@@ -11,6 +11,7 @@ import (
 
 	"github.com/go-kid/ioc/app"
 	"github.com/go-kid/ioc/configure"
+	"github.com/go-kid/ioc/configure/binder"
 	"github.com/go-kid/ioc/configure/loader"
 	"gopkg.in/yaml.v3"
 	"verifharness/core"
@@ -154,6 +155,10 @@ type c15Source struct {
 }
 
 func (p c15) Run(c *core.Ctx) {
+	if c.Index%6 == 5 {
+		p.reinit(c)
+		return
+	}
 	ns := 1 + c.Rng.Intn(5)
 	var srcs []*c15Source
 	usedOrd := map[string]bool{}
@@ -432,6 +437,180 @@ func (p c15) Run(c *core.Ctx) {
 		if c.WantSample() {
 			c.Sample(desc())
 		}
+	}
+}
+
+// contractOrder sorts sources the way the statement prescribes (stable for what it leaves open; the
+// generator never produces equal orders inside a class).
+func contractOrder(eff []*c15Source) []*c15Source {
+	rank := func(s *c15Source) int {
+		switch s.kind {
+		case "file", "priority":
+			return 0
+		case "ordered":
+			return 1
+		}
+		return 2
+	}
+	ordered := append([]*c15Source(nil), eff...)
+	sort.SliceStable(ordered, func(a, b int) bool {
+		ra, rb := rank(ordered[a]), rank(ordered[b])
+		if ra != rb {
+			return ra < rb
+		}
+		if ra < 2 {
+			return ordered[a].ord < ordered[b].ord
+		}
+		return false
+	})
+	return ordered
+}
+
+// reinit drives a Configure directly through several rounds of "add sources, Initialize": sources are
+// added between initializations (a file found later, a loader contributed by a plug-in). After every
+// Initialize the effective configuration must contain every source added so far. The statement does
+// not say whether a repeated Initialize starts from scratch or merges on top of what is there, so only
+// paths on which both readings agree are asserted.
+func (p c15) reinit(c *core.Ctx) {
+	tmpDir := filepath.Join(os.Getenv("VERIF_DIR"), ".work", "tmp")
+	if os.Getenv("VERIF_DIR") == "" {
+		tmpDir = "/verif/.work/tmp"
+	}
+	os.MkdirAll(tmpDir, 0o755)
+	var files []string
+	defer func() {
+		for _, f := range files {
+			os.Remove(f)
+		}
+	}()
+	usedOrd := map[string]bool{}
+	haveFile := false
+	n := 0
+	newSource := func() *c15Source {
+		s := &c15Source{label: fmt.Sprintf("s%d", n), via: "add"}
+		n++
+		kinds := []string{"raw", "raw", "args", "ordered", "priority", "file", "file"}
+		s.kind = kinds[c.Rng.Intn(len(kinds))]
+		if s.kind == "file" && haveFile {
+			s.kind = "raw"
+		}
+		s.tree = genTree(c, 0, s.kind == "args")
+		b, _ := yaml.Marshal(s.tree)
+		switch s.kind {
+		case "raw":
+			s.ld = loader.NewRawLoader(b)
+		case "file":
+			haveFile = true
+			f := filepath.Join(tmpDir, fmt.Sprintf("c15r-%d-%d-%d.yaml", os.Getpid(), c.Index, n))
+			os.WriteFile(f, b, 0o644)
+			files = append(files, f)
+			s.ld = loader.NewFileLoader(f)
+			usedOrd["priority0"] = true
+		case "args":
+			flat := map[string]any{}
+			flatten("", s.tree, flat)
+			args := []string{"prog"}
+			for _, k := range core.SortedKeys(flat) {
+				if _, isMap := flat[k].(map[string]any); !isMap {
+					args = append(args, fmt.Sprintf("--app.config=%s=%v", k, flat[k]))
+				}
+			}
+			s.ld = loader.NewArgsLoader(args)
+		default:
+			for {
+				s.ord = c.Rng.Intn(9) - 4
+				if !usedOrd[fmt.Sprint(s.kind, s.ord)] {
+					break
+				}
+			}
+			usedOrd[fmt.Sprint(s.kind, s.ord)] = true
+			cl := 1
+			if s.kind == "priority" {
+				cl = 2
+			}
+			s.ld = world.NewLoader(cl, s.label, s.ord, b, nil)
+		}
+		return s
+	}
+	cfg := configure.NewConfigure()
+	cfg.SetBinder(binder.NewViperBinder("yaml"))
+	var all, applied []*c15Source
+	onTop := map[string]any{} // reading 1: every Initialize merges the whole sequence on top of the state
+	rounds := 2 + c.Rng.Intn(2)
+	var desc []string
+	overlap := false
+	for round := 0; round < rounds; round++ {
+		k := 1 + c.Rng.Intn(3)
+		if round == 0 {
+			k = c.Rng.Intn(3) // possibly nothing before the first Initialize
+		}
+		var lds []configure.Loader
+		for i := 0; i < k; i++ {
+			s := newSource()
+			all = append(all, s)
+			lds = append(lds, s.ld)
+			desc = append(desc, fmt.Sprintf("round %d: %s kind=%s order=%d tree=%s", round, s.label, s.kind, s.ord, canon(s.tree)))
+		}
+		cfg.AddLoaders(lds...)
+		var err error
+		func() {
+			defer func() {
+				if r := recover(); r != nil {
+					err = fmt.Errorf("panic: %v", r)
+				}
+			}()
+			err = cfg.Initialize()
+		}()
+		c.AddEvaluations(1)
+		ordered := contractOrder(all)
+		applied = append(applied, ordered...)
+		fresh := map[string]any{} // reading 2: every Initialize starts from scratch
+		for _, s := range ordered {
+			modelMerge(fresh, s.tree)
+			modelMerge(onTop, s.tree)
+		}
+		detail := map[string]any{"rounds": desc, "after_round": round, "expected_from_scratch": canon(fresh), "expected_on_top": canon(onTop)}
+		if err != nil {
+			if class := classifyC15(nil, applied, nil, ""); class != "" {
+				c.Fail(class, fmt.Sprintf("Initialize #%d failed: %v", round+1, err), detail)
+			} else {
+				c.Fail("", fmt.Sprintf("Initialize #%d with mergeable sources failed: %v", round+1, err), detail)
+			}
+			return
+		}
+		f1, f2 := map[string]any{}, map[string]any{}
+		flatten("", fresh, f1)
+		flatten("", onTop, f2)
+		seen := map[string]int{}
+		for _, s := range ordered {
+			fs := map[string]any{}
+			flatten("", s.tree, fs)
+			for pth := range fs {
+				seen[pth]++
+				if seen[pth] > 1 {
+					overlap = true
+				}
+			}
+		}
+		for _, pth := range core.SortedKeys(f1) {
+			if v2, ok := f2[pth]; !ok || canon(v2) != canon(f1[pth]) {
+				c.Count("reinit_paths_left_open_by_the_statement", 1)
+				continue
+			}
+			got := cfg.Get(pth)
+			c.Count("reinit_paths_checked", 1)
+			if canon(got) != canon(f1[pth]) {
+				class := classifyC15(nil, applied, nil, pth)
+				c.Fail(class, fmt.Sprintf("after Initialize #%d: path %q is %s, the merge of all %d sources added so far gives %s", round+1, pth, canon(got), len(all), canon(f1[pth])), detail)
+				if class == "" || !core.IsKnown("C15", class) {
+					return
+				}
+			}
+		}
+	}
+	c.Count("reinitialized_configurations", 1)
+	if len(all) >= 2 && overlap {
+		c.Nontrivial("reinit:" + strings.Join(desc, ";"))
 	}
 }
 
